@@ -16,8 +16,9 @@ func init() {
 // sweep run inside the operations. Prefix Set(1), Set(2); then one operation (all 23, CleanUp included)
 // on key 1|2|3 after a clock offset chosen around the deadlines; then CleanUp and the observers.
 // Weights are symbolic; durations are concrete (the sweep arithmetic with a symbolic clock is C13's).
-func ZZ_C01_Sync() {
-	cfg := zzCfgFromParams()
+func ZZ_C01_Sync() { zzRunSync("c01s", zzCfgFromParams()) }
+
+func zzRunSync(tag string, cfg zzCfg) *zzSeq {
 	var ws [8]uint32
 	if cfg.bound == 2 {
 		for i := range ws {
@@ -25,12 +26,12 @@ func ZZ_C01_Sync() {
 		}
 		cfg.weigher = func(k, v int) uint32 { return ws[(v-100)&7] }
 	}
-	s := zzNewSeqD(cfg, "c01s", true)
+	s := zzNewSeqD(cfg, tag, true)
 	s.env.clk.now = 1 << 32
-	s.step(zzOpSet, 1, "c01s")
-	s.observe("c01s")
-	s.step(zzOpSet, 2, "c01s")
-	s.observe("c01s")
+	s.step(zzOpSet, 1, tag)
+	s.observe(tag)
+	s.step(zzOpSet, 2, tag)
+	s.observe(tag)
 	steps := vParam("steps")
 	sc := "Set;Set;"
 	for i := 0; i < steps; i++ {
@@ -40,13 +41,14 @@ func ZZ_C01_Sync() {
 		k := 1 + vChoice("key", 3)
 		sc += zzOpNames[op] + ";"
 		vScenario(sc)
-		s.step(op, k, "c01s")
-		s.observe("c01s")
+		s.step(op, k, tag)
+		s.observe(tag)
 	}
-	s.step(zzOpCleanUp, 1, "c01s.cleanup")
-	s.observe("c01s.final")
-	s.iterate("c01s.final")
-	s.syncPlain("c01s.final")
+	s.step(zzOpCleanUp, 1, tag+".cleanup")
+	s.observe(tag+".final")
+	s.iterate(tag+".final")
+	s.syncPlain(tag+".final")
+	return s
 }
 
 func zzPickOp(name string, set int) int {
@@ -65,8 +67,9 @@ func zzPickOp(name string, set int) int {
 	return vParam(name)
 }
 
-func ZZ_C01_Seq() {
-	cfg := zzCfgFromParams()
+func ZZ_C01_Seq() { zzRunSym("c01", zzCfgFromParams()) }
+
+func zzRunSym(tag string, cfg zzCfg) *zzSeq {
 	symtime := vParam("symtime") == 1
 	steps := vParam("steps")
 	nkeys := vParam("nkeys")
@@ -77,7 +80,7 @@ func ZZ_C01_Seq() {
 		}
 		cfg.weigher = func(k, v int) uint32 { return ws[(v-100)&7] }
 	}
-	s := zzNewSeqD(cfg, "c01", !symtime)
+	s := zzNewSeqD(cfg, tag, !symtime)
 	s.env.clk.now = 1 << 32
 	if symtime {
 		s.env.clk.now = zzTime("t0")
@@ -110,12 +113,13 @@ func ZZ_C01_Seq() {
 		}
 		sc += zzOpNames[op] + ";"
 		vScenario(sc)
-		s.step(op, k, "c01")
-		s.observe("c01")
+		s.step(op, k, tag)
+		s.observe(tag)
 	}
-	s.iterate("c01.final")
+	s.iterate(tag+".final")
 	if vParam("canary") == 1 {
 		_, ok := s.env.c.GetEntryQuietly(1)
-		vAssert(!ok, "c01.canary")
+		vAssert(!ok, tag+".canary")
 	}
+	return s
 }
